@@ -108,8 +108,8 @@ Proof.
   destruct (first_zombie (kids s)) as [[z rest]|]; [|inversion H; auto].
   simpl in H. destruct (reexec s =? k_pid z).
   - apply IHfuel in H. simpl in H. auto.
-  - destruct (Z.shiftr (k_status z) 8 =? worker_boot_error); [inversion H; auto|].
-    destruct (Z.shiftr (k_status z) 8 =? app_load_error); [inversion H; auto|].
+  - destruct ((Z.shiftr (k_status z) 8 =? worker_boot_error) && raises _); [inversion H; auto|].
+    destruct ((Z.shiftr (k_status z) 8 =? app_load_error) && raises _); [inversion H; auto|].
     apply IHfuel in H. simpl in H. auto.
 Qed.
 
@@ -146,8 +146,8 @@ Proof.
   destruct (reap_one_sinv _ _ _ F I) as [I1 I2].
   simpl in H. destruct (reexec s =? k_pid z).
   - eapply IHfuel; eauto. destruct I1 as [N C P K]. constructor; auto.
-  - destruct (Z.shiftr (k_status z) 8 =? worker_boot_error); [inversion H; subst; auto|].
-    destruct (Z.shiftr (k_status z) 8 =? app_load_error); [inversion H; subst; auto|].
+  - destruct ((Z.shiftr (k_status z) 8 =? worker_boot_error) && raises _); [inversion H; subst; auto|].
+    destruct ((Z.shiftr (k_status z) 8 =? app_load_error) && raises _); [inversion H; subst; auto|].
     eapply IHfuel; eauto.
 Qed.
 
@@ -394,8 +394,8 @@ Proof.
   - apply IHfuel in H. simpl in H.
     destruct H as [F1 [F3 [F4 [F5 [F6 [F7 [F8 [F9 [F10 [F11 [F2 F12]]]]]]]]]]]. repeat split; auto.
     destruct F2; auto.
-  - destruct (Z.shiftr (k_status z) 8 =? worker_boot_error); [inversion H; subst; simpl; repeat split; auto|].
-    destruct (Z.shiftr (k_status z) 8 =? app_load_error); [inversion H; subst; simpl; repeat split; auto|].
+  - destruct ((Z.shiftr (k_status z) 8 =? worker_boot_error) && raises _); [inversion H; subst; simpl; repeat split; auto|].
+    destruct ((Z.shiftr (k_status z) 8 =? app_load_error) && raises _); [inversion H; subst; simpl; repeat split; auto|].
     apply IHfuel in H. simpl in H.
     destruct H as [F1 [F3 [F4 [F5 [F6 [F7 [F8 [F9 [F10 [F11 [F2 F12]]]]]]]]]]]. repeat split; auto.
     intros Q. apply F12. rewrite Q. reflexivity.
